@@ -1,0 +1,67 @@
+// SPDX-FileCopyrightText: 2026 The Pion community <https://pion.ly>
+// SPDX-License-Identifier: MIT
+
+//go:build verif
+
+package ivfreader
+
+// Contracts for the contract-based verification in /verif (build tag verif); comments only.
+
+// ---- stream model (assumed contract on io): the reader delivers the bytes of a
+// fixed finite byte string ufbyte("stream", i), i < ufint("streamlen"); the ghost
+// counter rdpos is the number of bytes consumed so far.
+//@ func io.ReadFull
+//@ trusted
+//@ requires r != nil
+//@ ghost rdpos += n
+//@ ensures 0 <= n && n <= len(buf) && ((err == nil) == (n == len(buf)))
+//@ ensures ufint("streamlen") >= 0 && old(ghost(rdpos)) <= uint64(ufint("streamlen"))
+//@ ensures (err == nil) == (old(ghost(rdpos)) + uint64(len(buf)) <= uint64(ufint("streamlen")))
+//@ ensures err == nil ==> (forall i int :: 0 <= i && i < len(buf) ==> buf[i] == ufbyte("stream", int(old(ghost(rdpos))) + i))
+//@ ensures err != nil ==> (forall i int :: 0 <= i && i < n ==> buf[i] == ufbyte("stream", int(old(ghost(rdpos))) + i))
+//@ modifies elems(buf)
+
+// representation invariant of IVFReader: NewWith refuses a zero time base, nothing else writes it
+//@ field IVFReader.timebaseNumerator props C37 C32 writers NewWith
+//@ field IVFReader.timebaseDenominator props C37 C32 writers NewWith
+
+//@ func (*IVFReader).ptsToTimestamp
+//@ props C37 C32
+//@ requires i != nil && i.timebaseNumerator != 0
+//@ ensures result == pts * uint64(i.timebaseDenominator) / uint64(i.timebaseNumerator)
+//@ modifies nothing
+
+//@ func (*IVFReader).parseFileHeader
+//@ props C37 C32
+//@ requires i != nil && i.stream != nil
+//@ requires ghost(rdpos) < 1<<40 && ufint("streamlen") < 1<<40
+//@ ensures err == nil ==> ret0 != nil && ghost(rdpos) == old(ghost(rdpos)) + 32
+//@ ensures err == nil ==> ret0.Width == uint16(ufbyte("stream", int(old(ghost(rdpos)))+12)) | uint16(ufbyte("stream", int(old(ghost(rdpos)))+13))<<8
+//@ ensures err == nil ==> ret0.Height == uint16(ufbyte("stream", int(old(ghost(rdpos)))+14)) | uint16(ufbyte("stream", int(old(ghost(rdpos)))+15))<<8
+//@ ensures err == nil ==> ret0.TimebaseDenominator == uint32(ufbyte("stream", int(old(ghost(rdpos)))+16)) | uint32(ufbyte("stream", int(old(ghost(rdpos)))+17))<<8 | uint32(ufbyte("stream", int(old(ghost(rdpos)))+18))<<16 | uint32(ufbyte("stream", int(old(ghost(rdpos)))+19))<<24
+//@ ensures err == nil ==> ret0.TimebaseNumerator == uint32(ufbyte("stream", int(old(ghost(rdpos)))+20)) | uint32(ufbyte("stream", int(old(ghost(rdpos)))+21))<<8 | uint32(ufbyte("stream", int(old(ghost(rdpos)))+22))<<16 | uint32(ufbyte("stream", int(old(ghost(rdpos)))+23))<<24
+//@ ensures err == nil ==> ret0.NumFrames == uint32(ufbyte("stream", int(old(ghost(rdpos)))+24)) | uint32(ufbyte("stream", int(old(ghost(rdpos)))+25))<<8 | uint32(ufbyte("stream", int(old(ghost(rdpos)))+26))<<16 | uint32(ufbyte("stream", int(old(ghost(rdpos)))+27))<<24
+//@ ensures err == nil ==> ufbyte("stream", int(old(ghost(rdpos)))) == 'D' && ufbyte("stream", int(old(ghost(rdpos)))+1) == 'K' && ufbyte("stream", int(old(ghost(rdpos)))+2) == 'I' && ufbyte("stream", int(old(ghost(rdpos)))+3) == 'F'
+//@ ensures err == nil ==> ufbyte("stream", int(old(ghost(rdpos)))+4) == 0 && ufbyte("stream", int(old(ghost(rdpos)))+5) == 0
+//@ ensures i.timebaseNumerator == old(i.timebaseNumerator) && i.timebaseDenominator == old(i.timebaseDenominator)
+
+//@ func NewWith
+//@ props C37 C32
+//@ requires ghost(rdpos) < 1<<40 && ufint("streamlen") < 1<<40
+//@ ensures err == nil ==> ret0 != nil && ret1 != nil && ret0.timebaseNumerator != 0 && ret0.timebaseDenominator != 0 && ret0.stream != nil
+//@ ensures err == nil ==> ret0.timebaseNumerator == ret1.TimebaseNumerator && ret0.timebaseDenominator == ret1.TimebaseDenominator
+//@ ensures err == nil ==> ghost(rdpos) == old(ghost(rdpos)) + 32
+//@ ensures err != nil ==> ret0 == nil
+
+// never panics (safety obligations), makes progress of at least the 12-byte frame
+// header on success, and returns the frame bytes and header fields of the stream.
+//@ func (*IVFReader).ParseNextFrame
+//@ props C37 C32
+//@ requires i != nil && i.stream != nil && i.timebaseNumerator != 0
+//@ requires ghost(rdpos) < 1<<40 && ufint("streamlen") < 1<<40
+//@ ensures err == nil ==> ghost(rdpos) == old(ghost(rdpos)) + 12 + uint64(len(ret0)) && ret1 != nil
+//@ ensures err == nil ==> ret1.FrameSize == uint32(ufbyte("stream", int(old(ghost(rdpos))))) | uint32(ufbyte("stream", int(old(ghost(rdpos)))+1))<<8 | uint32(ufbyte("stream", int(old(ghost(rdpos)))+2))<<16 | uint32(ufbyte("stream", int(old(ghost(rdpos)))+3))<<24
+//@ ensures err == nil ==> len(ret0) == int(ret1.FrameSize)
+//@ ensures err == nil ==> (forall k int :: 0 <= k && k < len(ret0) ==> ret0[k] == ufbyte("stream", int(old(ghost(rdpos))) + 12 + k))
+//@ ensures err != nil ==> ret0 == nil && ret1 == nil
+//@ ensures i.timebaseNumerator == old(i.timebaseNumerator) && i.timebaseDenominator == old(i.timebaseDenominator)
